@@ -17,6 +17,8 @@ import warnings
 
 import numpy as np
 
+from vf import tensorenv
+
 PROPERTY = "C07"
 LEVEL = "exploration"
 ANCHOR_FILES = ["quantem/tomography/radon/radon.py", "quantem/tomography/tomography_conv.py"]
@@ -110,6 +112,11 @@ def plan(tier, seed):
     # ---- the caller in tomography_conv.py
     for r in range(24 if quick else 240):
         specs.append({"kind": "sirt", "n": int(rng.integers(6, 29)), "filter": FILTERS[int(rng.integers(len(FILTERS)))], "depth": int(rng.integers(1, 4))})
+    # ---- a few LARGE batches (appended last so that earlier case indices keep their meaning)
+    big = [("radon", 128, 24), ("radon", 301, 24), ("radon", 96, 23), ("radon", 128, 25), ("iradon", 64, 22), ("iradon", 128, 23)]
+    for r in range(1 if quick else 4):
+        for fn, n, e in big:
+            specs.append({"kind": "bigbatch", "fn": fn, "n": int(n + (0 if r == 0 else rng.integers(-9, 10))), "log2_elements": e})
     return specs
 
 
@@ -229,7 +236,7 @@ def _args_unchanged(ctx, function, pairs, common):
     for name, before, after in pairs:
         if before is None:
             continue
-        ctx.check(np.array_equal(before, after, equal_nan=True), "argument_modified", "%s modified its argument %r in place" % (function, name), function=function, argument=name, **common)
+        ctx.check(after is not None and np.array_equal(before, after, equal_nan=True), "argument_modified", "%s modified its argument %r in place" % (function, name), function=function, argument=name, **common)
 
 
 def _independent(ctx, function, second, snap, ref, scale, tol, common, what, mask=None):
@@ -237,8 +244,8 @@ def _independent(ctx, function, second, snap, ref, scale, tol, common, what, mas
     d2 = np.abs(second - ref)
     if mask is not None:
         d2 = d2 * mask
-    ctx.close(float(d1.max()) / scale, TOL["batch"], "result_not_independent", "%s: %s; the same call then returned something else (worst change %.4g of scale %.4g)" % (function, what, float(d1.max()), scale), function=function, **common)
-    ctx.close(float(d2.max()) / scale, tol, "mismatch_after_result_edited", "%s: %s; the same call then no longer agrees with scikit-image" % (function, what), function=function, **common)
+    ctx.close(float(np.max(d1 / scale)), TOL["batch"], "result_not_independent", "%s: %s; the same call then returned something else (worst change %.4g of scale %.4g)" % (function, what, float(d1.max()), float(np.max(scale))), function=function, **common)
+    ctx.close(float(np.max(d2 / scale)), tol, "mismatch_after_result_edited", "%s: %s; the same call then no longer agrees with scikit-image" % (function, what), function=function, **common)
 
 
 
@@ -252,6 +259,7 @@ def _run_filter(spec, idx, ctx):
     out = qr.get_fourier_filter_torch(size, f)
     ref = ctx.state["sk_filter"](size, f)
     common = {"filter": _fname(f), "filter_class": _fclass(f), "size_class": "pow2" if size & (size - 1) == 0 else "other"}
+    common.update(_env(ctx))
     ok = ctx.check(tuple(out.shape) == (1, size), "filter_shape", "shape %s, expected (1,%d)" % (tuple(out.shape), size), **common)
     if ok:
         o = _np(out).ravel()
@@ -271,15 +279,52 @@ def _run_filter(spec, idx, ctx):
     ctx.observe(filter=_fname(f), size=size)
 
 
-def _radon_call(ctx, imgs32, theta32):
-    """imgs32: np (B,N,N) float32; returns np float64 (B,A,N) from one batched call of the port."""
-    torch, qr = ctx.state["torch"], ctx.state["qr"]
-    t = torch.from_numpy(np.ascontiguousarray(imgs32))
-    th = None if theta32 is None else torch.from_numpy(np.ascontiguousarray(theta32))
+def _env(ctx):
+    return ctx.state.get("_env", {"state": "default", "layout": "contiguous"})
+
+
+def _tensor(ctx, arr, rng_key=0):
+    """caller-side tensor for `arr` in this case's memory layout / grad setting."""
+    torch = ctx.state["torch"]
+    env = _env(ctx)
+    t = tensorenv.relayout(torch, arr, env["layout"], ctx.state["_lrng"])
+    return tensorenv.want_grad(t, env["state"])
+
+
+def _sl(x):
+    """per-slice scale (B,1,1): every slice is judged relative to its own reference amplitude."""
+    s = np.abs(x).reshape(x.shape[0], -1).max(axis=1)
+    top = float(s.max()) if s.size and s.max() > 0 else 1.0
+    s = np.where(s > 0, s, top)
+    return s.reshape((-1,) + (1,) * (x.ndim - 1))
+
+
+def _amp_factors(rng, B, expanded=False):
+    """per-slice amplitude factors: O(1) mostly; otherwise anything from 1e-12 to 1e8, equal or mixed within the batch."""
+    r = rng.random()
+    if r < 0.65:
+        return np.ones(B), "unit"
+    if r < 0.85 or expanded or B == 1:
+        return np.full(B, 10.0 ** rng.uniform(-12, 8)), "scaled"
+    f = 10.0 ** rng.uniform(-12, 8, size=B)
+    f[int(rng.integers(B))] = 1.0
+    return f, "mixed"
+
+
+def _radon_call(ctx, imgs32, theta32, keep=False):
+    """imgs32: np (B,N,N) float32; returns np float64 (B,A,N) from one batched call of the port.
+    The caller's tensors are compared with their values before the call."""
+    qr = ctx.state["qr"]
+    t = _tensor(ctx, imgs32)
+    th = None if theta32 is None else tensorenv.relayout(ctx.state["torch"], theta32, _env(ctx)["layout"] if _env(ctx)["layout"] != "expanded" else "window", ctx.state["_lrng"])
     arg = t[0] if (t.shape[0] == 1 and ctx.state.get("_squeeze_in")) else t
     out = qr.radon_torch(arg, theta=th)
+    _args_unchanged(ctx, "radon_torch", [("images", imgs32, tensorenv.values(t)), ("theta", theta32, None if th is None else tensorenv.values(th))], _env(ctx))
     o = _np(out)
-    return o[None] if o.ndim == 2 else o, tuple(out.shape)
+    o = o[None] if o.ndim == 2 else o
+    if keep:
+        return o, tuple(out.shape), out
+    return o, tuple(out.shape)
 
 
 def _run_radon(spec, idx, ctx):
@@ -290,10 +335,16 @@ def _run_radon(spec, idx, ctx):
     theta_ref = np.arange(180, dtype=np.float64) if default_theta else theta32.astype(np.float64)
     A = len(theta_ref)
     raw = np.stack([_image(rng, n, spec["image"]) for _ in range(B)])
+    expanded = _env(ctx)["layout"] == "expanded"
+    if expanded:
+        raw[:] = raw[0]
+    fac, amp_class = _amp_factors(ctx.rng(idx, 3), B, expanded)
+    raw = (raw * fac[:, None, None]).astype(np.float32)
     disc = _disc(n)
     masked = (raw * disc).astype(np.float32)
     par = "even" if n % 2 == 0 else "odd"
-    common = {"n_parity": par, "angle_class": spec["angles"], "image": spec["image"], "batched": B > 1}
+    common = {"n_parity": par, "angle_class": spec["angles"], "image": spec["image"], "batched": B > 1, "amplitude": amp_class}
+    common.update(_env(ctx))
     ctx.state["_squeeze_in"] = bool(rng.random() < 0.5)
 
     out, shp = _radon_call(ctx, masked, theta32)
@@ -301,77 +352,89 @@ def _run_radon(spec, idx, ctx):
     if not ctx.check(shp == want, "radon_shape", "radon_torch output shape %s, expected %s" % (shp, want), **common):
         return
     ref = np.stack([ctx.state["sk_radon"](masked[b].astype(np.float64), theta=theta_ref, circle=True).T for b in range(B)])  # (B,A,N)
-    scale = float(np.max(np.abs(ref))) or 1.0
-    d = np.abs(out - ref)
-    ctx.close(float(d.max()) / scale, TOL["radon"], "radon_mismatch", lambda: "N=%d B=%d angles=%s: worst at (b,angle,pixel)=%s angle=%.4f torch=%.6g skimage=%.6g scale=%.4g" % (n, B, spec["angles"], _at(d), theta_ref[_at(d)[1]], out.flat[int(np.argmax(d))], ref.flat[int(np.argmax(d))], scale), theta=spec["theta"], **common)
+    scale = _sl(ref)
+    d = np.abs(out - ref) / scale
+    ctx.close(float(d.max()), TOL["radon"], "radon_mismatch", lambda: "N=%d B=%d angles=%s amplitude factors %s: worst at (b,angle,pixel)=%s angle=%.4f torch=%.6g skimage=%.6g slice scale=%.4g" % (n, B, spec["angles"], ["%.1e" % v for v in fac], _at(d), theta_ref[_at(d)[1]], out.flat[int(np.argmax(d))], ref.flat[int(np.argmax(d))], float(scale[_at(d)[0], 0, 0])), theta=spec["theta"], **common)
 
     # the port masks the image itself: the unmasked image must give the same sinogram
-    out_raw, _ = _radon_call(ctx, raw, theta32)
-    ctx.close(float(np.max(np.abs(out_raw - out))) / scale, TOL["mask"], "radon_disc_mask", "N=%d: radon_torch(image) differs from radon_torch(image x inscribed disc)" % n, **common)
+    out_raw, _, out_tensor = _radon_call(ctx, raw, theta32, keep=True)
+    ctx.close(float(np.max(np.abs(out_raw - out) / scale)), TOL["mask"], "radon_disc_mask", "N=%d: radon_torch(image) differs from radon_torch(image x inscribed disc)" % n, **common)
 
     # batched == per-image
     if B > 1:
         per = np.concatenate([_radon_call(ctx, masked[b : b + 1], theta32)[0] for b in range(B)])
-        ctx.close(float(np.max(np.abs(per - out))) / scale, TOL["batch"], "radon_batch_mismatch", "N=%d B=%d: batched call differs from per-image calls" % (n, B), **common)
+        ctx.close(float(np.max(np.abs(per - out) / scale)), TOL["batch"], "radon_batch_mismatch", "N=%d B=%d: batched call differs from per-image calls" % (n, B), **common)
     else:
         # a 2-D image and a [1,N,N] batch are the same request
         ctx.state["_squeeze_in"] = not ctx.state["_squeeze_in"]
         alt, _ = _radon_call(ctx, masked, theta32)
-        ctx.close(float(np.max(np.abs(alt - out))) / scale, TOL["batch"], "radon_batch_mismatch", "N=%d: 2-D call differs from [1,N,N] call" % n, **common)
+        ctx.close(float(np.max(np.abs(alt - out) / scale)), TOL["batch"], "radon_batch_mismatch", "N=%d: 2-D call differs from [1,N,N] call" % n, **common)
 
     if not default_theta:
         # linearity
         other = np.stack([_image(rng, n, IMAGE_KINDS[int(rng.integers(3))]) for _ in range(B)])
+        if expanded:
+            other[:] = other[0]
+        other = (other * fac[:, None, None]).astype(np.float32)
         a, b = (float(v) for v in rng.uniform(-2, 2, size=2))
         comb = (np.float32(a) * raw + np.float32(b) * other).astype(np.float32)
         o_comb, _ = _radon_call(ctx, comb, theta32)
         o_other, _ = _radon_call(ctx, other, theta32)
         lin = np.float64(np.float32(a)) * out_raw + np.float64(np.float32(b)) * o_other
-        lscale = max(float(np.max(np.abs(lin))), abs(a) * scale, 1e-30)
-        ctx.close(float(np.max(np.abs(o_comb - lin))) / lscale, TOL["linear"], "radon_nonlinear", "N=%d: R(a x + b y) != a R(x) + b R(y), a=%.3f b=%.3f" % (n, a, b), **common)
+        lscale = np.maximum(np.maximum(_sl(lin), abs(a) * scale), 1e-30)
+        ctx.close(float(np.max(np.abs(o_comb - lin) / lscale)), TOL["linear"], "radon_nonlinear", "N=%d: R(a x + b y) != a R(x) + b R(y), a=%.3f b=%.3f" % (n, a, b), **common)
 
     # 0 degree projection == column sums of the disc-masked image
     z, _ = _radon_call(ctx, raw, np.zeros(1, dtype=np.float32))
     cols = masked.astype(np.float64).sum(axis=1)  # (B,N): sum over rows
-    zscale = max(float(np.max(np.abs(cols))), 1e-30)
-    ctx.close(float(np.max(np.abs(z[:, 0, :] - cols))) / zscale, TOL["zero_deg"], "zero_deg_projection", lambda: "N=%d: projection at 0 deg vs column sums, worst column %d: %.6g vs %.6g" % (n, int(np.argmax(np.abs(z[:, 0, :] - cols).max(0))), z[:, 0, :].flat[int(np.argmax(np.abs(z[:, 0, :] - cols)))], cols.flat[int(np.argmax(np.abs(z[:, 0, :] - cols)))]), **common)
+    zscale = np.maximum(_sl(cols), 1e-30)
+    dz = np.abs(z[:, 0, :] - cols) / zscale
+    ctx.close(float(dz.max()), TOL["zero_deg"], "zero_deg_projection", lambda: "N=%d: projection at 0 deg vs column sums, worst (slice, column) %s: %.6g vs %.6g" % (n, _at(dz), z[:, 0, :].flat[int(np.argmax(dz))], cols.flat[int(np.argmax(dz))]), **common)
 
     if rng.random() < 0.4:
         _radon_independence(ctx, rng, raw, theta32, out_raw, ref, scale, common)
+    if not default_theta and ctx.rng(idx, 4).random() < 0.35:
+        _pipeline(ctx, ctx.rng(idx, 4), n, out_tensor, theta32, common)
     ctx.nontrivial(("radon", par, spec["angles"], spec["image"], B), float(np.ptp(masked)) > 0 and _n_oblique(theta_ref) >= 2)
-    ctx.observe(n=n, batch=B, n_angles=A, angles_head=theta_ref[:4], worst_rel=float(d.max()) / scale)
+    ctx.observe(n=n, batch=B, n_angles=A, angles_head=theta_ref[:4], worst_rel=float(d.max()), amplitude_factors=fac, **_env(ctx))
+
+
+def _pipeline(ctx, rng, n, sino_tensor, theta32, rcommon):
+    """the tensor radon_torch returned (whatever its layout) goes straight into iradon_torch."""
+    torch, qr = ctx.state["torch"], ctx.state["qr"]
+    f = FILTERS[int(rng.integers(len(FILTERS)))]
+    circle = bool(rng.random() < 0.5)
+    vals = tensorenv.values(sino_tensor).astype(np.float32)
+    out = qr.iradon_torch(sino_tensor, theta=torch.from_numpy(theta32.copy()), filter_name=f, circle=circle)
+    _args_unchanged(ctx, "iradon_torch", [("sinograms", vals, tensorenv.values(sino_tensor))], _env(ctx))
+    o = _np(out)
+    o = o[None] if o.ndim == 2 else o
+    v3 = vals[None] if vals.ndim == 2 else vals
+    ref = np.stack([ctx.state["sk_iradon"](v3[b].astype(np.float64).T, theta=theta32.astype(np.float64), filter_name=f, circle=circle) for b in range(v3.shape[0])])
+    nd = int(math.ceil(math.sqrt(2) * n)) if circle else n
+    common = {"n_parity": rcommon["n_parity"], "circle": circle, "filter": _fname(f), "filter_class": _fclass(f), "theta": "given", "out": "default", "sino": "radon_torch_output", "pad_pow2_differs": bool(circle and _pow2(n) != _pow2(nd)), "amplitude": rcommon["amplitude"]}
+    common.update(_env(ctx))
+    if not ctx.check(o.shape == ref.shape, "iradon_shape", "iradon_torch(radon_torch(x)) shape %s, expected %s" % (o.shape, ref.shape), **common):
+        return
+    amb = _ambiguous(theta32.astype(np.float64), n, circle, ref.shape[-1])
+    d = np.abs(o - ref) * (~amb)[None] / _sl(ref)
+    ctx.close(float(d.max()), TOL["iradon"], "iradon_mismatch", lambda: "N=%d: iradon_torch fed with the tensor returned by radon_torch (strides %s), filter=%r circle=%s: worst at %s torch=%.6g skimage=%.6g" % (n, tuple(sino_tensor.stride()), f, circle, _at(d), o.flat[int(np.argmax(d))], ref.flat[int(np.argmax(d))]), **common)
 
 
 def _radon_independence(ctx, rng, imgs32, theta32, first, ref, scale, common):
-    """arguments are not modified; a result edited by its owner does not leak into the next call."""
-    torch, qr = ctx.state["torch"], ctx.state["qr"]
-    img_np = imgs32.copy()
-    th_np = None if theta32 is None else theta32.copy()
-    t = torch.from_numpy(img_np)
-    th = None if th_np is None else torch.from_numpy(th_np)
-    res = qr.radon_torch(t, theta=th)
-    _args_unchanged(ctx, "radon_torch", [("images", imgs32, img_np), ("theta", theta32, th_np)], common)
-    snap = _np(res)
-    snap = snap[None] if snap.ndim == 2 else snap
-    ctx.close(float(np.max(np.abs(snap - first))) / scale, TOL["batch"], "result_not_independent", "radon_torch: repeated identical call differs", function="radon_torch", **common)
-    if _scribble(ctx, res, rng):
-        _args_unchanged(ctx, "radon_torch (result edited)", [("images", imgs32, img_np), ("theta", theta32, th_np)], common)
+    """a result edited by its owner does not leak into the next call (arguments are checked on every call)."""
+    snap, _, res = _radon_call(ctx, imgs32, theta32, keep=True)
+    ctx.close(float(np.max(np.abs(snap - first) / scale)), TOL["batch"], "result_not_independent", "radon_torch: repeated identical call differs", function="radon_torch", **common)
+    _scribble(ctx, res, rng)
     again, _ = _radon_call(ctx, imgs32, theta32)
     _independent(ctx, "radon_torch", again, snap, ref, scale, TOL["radon"], common, "the returned sinogram was edited in place")
 
 
 def _iradon_independence(ctx, rng, n, sino32, theta32, f, circle, osz, first, ref, scale, amb, common):
     torch, qr = ctx.state["torch"], ctx.state["qr"]
-    s_np = sino32.copy()
-    th_np = None if theta32 is None else theta32.copy()
-    th = None if th_np is None else torch.from_numpy(th_np)
-    res = qr.iradon_torch(torch.from_numpy(s_np), theta=th, output_size=osz, filter_name=f, circle=circle)
-    _args_unchanged(ctx, "iradon_torch", [("sinograms", sino32, s_np), ("theta", theta32, th_np)], common)
-    snap = _np(res)
-    snap = snap[None] if snap.ndim == 2 else snap
-    ctx.close(float(np.max(np.abs(snap - first))) / scale, TOL["batch"], "result_not_independent", "iradon_torch: repeated identical call differs", function="iradon_torch", **common)
-    if _scribble(ctx, res, rng):
-        _args_unchanged(ctx, "iradon_torch (result edited)", [("sinograms", sino32, s_np), ("theta", theta32, th_np)], common)
+    snap, _, res = _iradon_call(ctx, sino32, theta32, f, circle, osz, keep=True)
+    ctx.close(float(np.max(np.abs(snap - first) / scale)), TOL["batch"], "result_not_independent", "iradon_torch: repeated identical call differs", function="iradon_torch", **common)
+    _scribble(ctx, res, rng)
     again, _ = _iradon_call(ctx, sino32, theta32, f, circle, osz)
     _independent(ctx, "iradon_torch", again, snap, ref, scale, TOL["iradon"], common, "the returned reconstruction was edited in place", mask=(~amb)[None])
     # a filter obtained from the public constructor and edited by its owner must not reach iradon_torch
@@ -383,15 +446,19 @@ def _iradon_independence(ctx, rng, n, sino32, theta32, f, circle, osz, first, re
     _independent(ctx, "iradon_torch", again, snap, ref, scale, TOL["iradon"], common, "a filter returned by get_fourier_filter_torch for the same size and name was edited in place", mask=(~amb)[None])
 
 
-def _iradon_call(ctx, sino32, theta32, f, circle, osz):
-    """sino32: np (B,A,N) float32 → np float64 (B,out,out) from one call of the port."""
-    torch, qr = ctx.state["torch"], ctx.state["qr"]
-    t = torch.from_numpy(np.ascontiguousarray(sino32))
+def _iradon_call(ctx, sino32, theta32, f, circle, osz, keep=False):
+    """sino32: np (B,A,N) float32 -> np float64 (B,out,out) from one call of the port."""
+    qr = ctx.state["qr"]
+    t = _tensor(ctx, sino32)
     arg = t[0] if (t.shape[0] == 1 and ctx.state.get("_squeeze_in")) else t
-    th = None if theta32 is None else torch.from_numpy(np.ascontiguousarray(theta32))
+    th = None if theta32 is None else tensorenv.relayout(ctx.state["torch"], theta32, _env(ctx)["layout"] if _env(ctx)["layout"] != "expanded" else "window", ctx.state["_lrng"])
     out = qr.iradon_torch(arg, theta=th, output_size=osz, filter_name=f, circle=circle)
+    _args_unchanged(ctx, "iradon_torch", [("sinograms", sino32, tensorenv.values(t)), ("theta", theta32, None if th is None else tensorenv.values(th))], _env(ctx))
     o = _np(out)
-    return (o[None] if o.ndim == 2 else o), tuple(out.shape)
+    o = o[None] if o.ndim == 2 else o
+    if keep:
+        return o, tuple(out.shape), out
+    return o, tuple(out.shape)
 
 
 def _ambiguous(theta_deg, n_det, circle, osz):
@@ -422,7 +489,11 @@ def _run_iradon(spec, idx, ctx):
         kind = "smooth" if spec["sino"] == "radon_smooth" else "noise"
         gen_theta = np.linspace(0, 180, A, endpoint=False) if default_theta else th32.astype(np.float64)
         sino = np.stack([ctx.state["sk_radon"]((_image(rng, n, kind) * disc).astype(np.float64), theta=gen_theta, circle=True).T for _ in range(B)])
-    sino32 = sino.astype(np.float32)
+    expanded = _env(ctx)["layout"] == "expanded"
+    if expanded:
+        sino[:] = sino[0]
+    fac, amp_class = _amp_factors(ctx.rng(idx, 3), B, expanded)
+    sino32 = (sino * fac[:, None, None]).astype(np.float32)
     default_out = n if circle else int(np.floor(np.sqrt(n**2 / 2.0)))
     osz = None if spec["out"] == "default" else int(rng.integers(2, default_out + 1))
     out_n = default_out if osz is None else osz
@@ -439,43 +510,103 @@ def _run_iradon(spec, idx, ctx):
         "out": spec["out"],
         "sino": spec["sino"],
         "pad_pow2_differs": bool(circle and _pow2(n) != _pow2(nd)),
+        "amplitude": amp_class,
     }
+    common.update(_env(ctx))
     ctx.state["_squeeze_in"] = bool(rng.random() < 0.5)
     out, shp = _iradon_call(ctx, sino32, theta32, f, circle, osz)
     want = (out_n, out_n) if B == 1 else (B, out_n, out_n)
     if not ctx.check(shp == want, "iradon_shape", "iradon_torch output shape %s, expected %s" % (shp, want), **common):
         return
     ref = np.stack([ctx.state["sk_iradon"](sino32[b].astype(np.float64).T, theta=theta_ref, output_size=osz, filter_name=f, circle=circle) for b in range(B)])
-    scale = float(np.max(np.abs(ref))) or 1.0
+    scale = _sl(ref)
     th_eff = np.linspace(0, 180, A, endpoint=False) if default_theta else theta_ref
     amb = _ambiguous(th_eff, n, circle, out_n)
     if amb.any():
         ctx.count("iradon_boundary_pixels_not_judged", int(amb.sum()))
-    d = np.abs(out - ref) * (~amb)[None]
-    ctx.close(float(d.max()) / scale, TOL["iradon"], "iradon_mismatch", lambda: "N=%d B=%d A=%d filter=%r circle=%s out=%s theta=%s: worst at (b,row,col)=%s torch=%.6g skimage=%.6g scale=%.4g" % (n, B, A, f, circle, osz, spec["theta"], _at(d), out.flat[int(np.argmax(d))], ref.flat[int(np.argmax(d))], scale), **common)
+    d = np.abs(out - ref) * (~amb)[None] / scale
+    ctx.close(float(d.max()), TOL["iradon"], "iradon_mismatch", lambda: "N=%d B=%d A=%d filter=%r circle=%s out=%s theta=%s amplitude factors %s: worst at (b,row,col)=%s torch=%.6g skimage=%.6g slice scale=%.4g" % (n, B, A, f, circle, osz, spec["theta"], ["%.1e" % v for v in fac], _at(d), out.flat[int(np.argmax(d))], ref.flat[int(np.argmax(d))], float(scale[_at(d)[0], 0, 0])), **common)
 
     if B > 1:
         per = np.concatenate([_iradon_call(ctx, sino32[b : b + 1], theta32, f, circle, osz)[0] for b in range(B)])
-        ctx.close(float(np.max(np.abs(per - out))) / scale, TOL["batch"], "iradon_batch_mismatch", "N=%d B=%d: batched call differs from per-sinogram calls" % (n, B), **common)
+        ctx.close(float(np.max(np.abs(per - out) / scale)), TOL["batch"], "iradon_batch_mismatch", "N=%d B=%d: batched call differs from per-sinogram calls" % (n, B), **common)
     else:
         ctx.state["_squeeze_in"] = not ctx.state["_squeeze_in"]
         alt, _ = _iradon_call(ctx, sino32, theta32, f, circle, osz)
-        ctx.close(float(np.max(np.abs(alt - out))) / scale, TOL["batch"], "iradon_batch_mismatch", "N=%d: 2-D call differs from [1,A,N] call" % n, **common)
+        ctx.close(float(np.max(np.abs(alt - out) / scale)), TOL["batch"], "iradon_batch_mismatch", "N=%d: 2-D call differs from [1,A,N] call" % n, **common)
 
     # linearity
-    other = (rng.normal(size=sino32.shape) * float(np.std(sino32) + 1e-3)).astype(np.float32)
+    other = rng.normal(size=sino32.shape) * (np.std(sino32.astype(np.float64), axis=(1, 2), keepdims=True) + 1e-3 * fac[:, None, None])
+    if expanded:
+        other[:] = other[0]
+    other = other.astype(np.float32)
     a, b = (float(v) for v in rng.uniform(-2, 2, size=2))
     comb = (np.float32(a) * sino32 + np.float32(b) * other).astype(np.float32)
     o_comb, _ = _iradon_call(ctx, comb, theta32, f, circle, osz)
     o_other, _ = _iradon_call(ctx, other, theta32, f, circle, osz)
     lin = np.float64(np.float32(a)) * out + np.float64(np.float32(b)) * o_other
-    lscale = max(float(np.max(np.abs(lin))), abs(a) * scale, abs(b) * float(np.max(np.abs(o_other))), 1e-30)
-    ctx.close(float(np.max(np.abs(o_comb - lin))) / lscale, TOL["linear"], "iradon_nonlinear", "N=%d: B(a s + b t) != a B(s) + b B(t), a=%.3f b=%.3f" % (n, a, b), **common)
+    lscale = np.maximum(np.maximum(np.maximum(_sl(lin), abs(a) * scale), abs(b) * _sl(o_other)), 1e-30)
+    ctx.close(float(np.max(np.abs(o_comb - lin) / lscale)), TOL["linear"], "iradon_nonlinear", "N=%d: B(a s + b t) != a B(s) + b B(t), a=%.3f b=%.3f" % (n, a, b), **common)
 
     if rng.random() < 0.4:
         _iradon_independence(ctx, rng, n, sino32, theta32, f, circle, osz, out, ref, scale, amb, common)
     ctx.nontrivial(("iradon", par, _fname(f), bool(circle), spec["angles"], B, spec["sino"]), float(np.ptp(sino32)) > 0 and _n_oblique(th_eff) >= 2)
-    ctx.observe(n=n, batch=B, n_angles=A, filter=_fname(f), circle=bool(circle), output_size=out_n, worst_rel=float(d.max()) / scale)
+    ctx.observe(n=n, batch=B, n_angles=A, filter=_fname(f), circle=bool(circle), output_size=out_n, worst_rel=float(d.max()), amplitude_factors=fac, **_env(ctx))
+
+
+def _run_bigbatch(spec, idx, ctx):
+    """A few LARGE batches (B*N*N beyond 2**23..2**25 elements): the whole batch against calls on small chunks
+    (the regime every other case covers) and a handful of slices, incl. the first and last ones, against scikit-image."""
+    torch, qr = ctx.state["torch"], ctx.state["qr"]
+    rng = ctx.rng(idx)
+    n, fn = spec["n"], spec["fn"]
+    disc = _disc(n)
+    chunk = 61
+    common = {"n_parity": "even" if n % 2 == 0 else "odd", "batch_class": "large", "function": fn}
+    common.update(_env(ctx))
+    if fn == "radon":
+        B = int(2 ** spec["log2_elements"] / (n * n) * rng.uniform(1.004, 1.25)) + 1
+        th32 = np.sort(rng.uniform(5, 175, size=2)).astype(np.float32)
+        imgs = rng.standard_normal((B, n, n), dtype=np.float32)
+        imgs *= disc
+        t = torch.from_numpy(imgs)
+        out = qr.radon_torch(t, theta=torch.from_numpy(th32.copy()))
+        if not ctx.check(tuple(out.shape) == (B, 2, n), "radon_shape", "radon_torch output shape %s, expected %s" % (tuple(out.shape), (B, 2, n)), **common):
+            return
+        o = _np(out)
+        per = np.concatenate([_np(qr.radon_torch(t[k : k + chunk], theta=torch.from_numpy(th32.copy()))).reshape(-1, 2, n) for k in range(0, B, chunk)])
+        sc = _sl(per)
+        db = np.abs(o - per) / sc
+        ctx.close(float(db.max()), TOL["batch"], "radon_batch_mismatch", lambda: "N=%d B=%d: batched call differs from calls on chunks of %d slices: %d slices differ, first %d, worst %d" % (n, B, chunk, int(np.sum(db.reshape(B, -1).max(1) > TOL["batch"])), int(np.argmax(db.reshape(B, -1).max(1) > TOL["batch"])), _at(db)[0]), **common)
+        pick = sorted({0, 1, B // 2, B - 2, B - 1, int(rng.integers(B)), int(rng.integers(B))})
+        ref = np.stack([ctx.state["sk_radon"](imgs[b].astype(np.float64), theta=th32.astype(np.float64), circle=True).T for b in pick])
+        d = np.abs(o[pick] - ref) / _sl(ref)
+        ctx.close(float(d.max()), TOL["radon"], "radon_mismatch", lambda: "N=%d B=%d: slice %d of the large batch differs from skimage" % (n, B, pick[_at(d)[0]]), theta="given", angle_class="random", image="noise", batched=True, amplitude="unit", **common)
+    else:
+        A = int(rng.integers(3, 7))
+        circle = bool(rng.random() < 0.5)
+        f = FILTERS[int(rng.integers(len(FILTERS)))]
+        nd = int(math.ceil(math.sqrt(2) * n)) if circle else n
+        B = int(2 ** spec["log2_elements"] / (A * _pow2(nd)) * rng.uniform(1.004, 1.25)) + 1
+        th32 = np.sort(rng.uniform(0, 180, size=A)).astype(np.float32)
+        sino = rng.standard_normal((B, A, n), dtype=np.float32)
+        t = torch.from_numpy(sino)
+        out = qr.iradon_torch(t, theta=torch.from_numpy(th32.copy()), filter_name=f, circle=circle)
+        on = n if circle else int(np.floor(np.sqrt(n**2 / 2.0)))
+        if not ctx.check(tuple(out.shape) == (B, on, on), "iradon_shape", "iradon_torch output shape %s, expected %s" % (tuple(out.shape), (B, on, on)), **common):
+            return
+        o = _np(out)
+        per = np.concatenate([_np(qr.iradon_torch(t[k : k + chunk], theta=torch.from_numpy(th32.copy()), filter_name=f, circle=circle)).reshape(-1, on, on) for k in range(0, B, chunk)])
+        sc = _sl(per)
+        db = np.abs(o - per) / sc
+        ctx.close(float(db.max()), TOL["batch"], "iradon_batch_mismatch", lambda: "N=%d B=%d A=%d: batched call differs from calls on chunks of %d sinograms, worst slice %d" % (n, B, A, chunk, _at(db)[0]), **common)
+        pick = sorted({0, 1, B // 2, B - 2, B - 1, int(rng.integers(B)), int(rng.integers(B))})
+        ref = np.stack([ctx.state["sk_iradon"](sino[b].astype(np.float64).T, theta=th32.astype(np.float64), filter_name=f, circle=circle) for b in pick])
+        amb = _ambiguous(th32.astype(np.float64), n, circle, on)
+        d = np.abs(o[pick] - ref) * (~amb)[None] / _sl(ref)
+        ctx.close(float(d.max()), TOL["iradon"], "iradon_mismatch", lambda: "N=%d B=%d: sinogram %d of the large batch differs from skimage" % (n, B, pick[_at(d)[0]]), circle=circle, filter=_fname(f), filter_class=_fclass(f), theta="given", out="default", sino="noise", pad_pow2_differs=bool(circle and _pow2(n) != _pow2(nd)), amplitude="unit", **common)
+    ctx.nontrivial(("bigbatch", fn, n, spec["log2_elements"]), True)
+    ctx.observe(n=n, batch=B, function=fn, elements=int(B * n * n), worst_vs_chunks=float(db.max()), **_env(ctx))
 
 
 def _run_sirt(spec, idx, ctx):
@@ -499,6 +630,7 @@ def _run_sirt(spec, idx, ctx):
     new = _np(stub.volume_obj._obj)
     par = "even" if n % 2 == 0 else "odd"
     common = {"n_parity": par, "filter": _fname(f), "filter_class": _fclass(f), "circle": True}
+    common.update(_env(ctx))
     if D == 1 and new.ndim == 2:
         new = new[None]
     if not ctx.check(new.shape == start.shape, "sirt_shape", "volume shape %s -> %s" % (start.shape, new.shape), **common):
@@ -525,7 +657,15 @@ def _run_sirt(spec, idx, ctx):
 
 def run_case(spec, idx, ctx):
     k = spec["kind"]
-    with warnings.catch_warnings():
+    erng = ctx.rng(idx, 7)
+    big = k == "bigbatch"
+    state = tensorenv.pick_state(erng, 0.7 if not big else 1.0)
+    layout = tensorenv.pick_layout(erng, 0.6) if k in ("radon", "iradon") else "contiguous"
+    ctx.state["_env"] = {"state": state, "layout": layout}
+    ctx.state["_lrng"] = ctx.rng(idx, 8)
+    ctx.count("state:" + state)
+    ctx.count("layout:" + layout)
+    with warnings.catch_warnings(), tensorenv.global_state(ctx.state["torch"], state):
         warnings.simplefilter("ignore")
         if k == "filter":
             _run_filter(spec, idx, ctx)
@@ -533,6 +673,8 @@ def run_case(spec, idx, ctx):
             _run_radon(spec, idx, ctx)
         elif k == "iradon":
             _run_iradon(spec, idx, ctx)
+        elif k == "bigbatch":
+            _run_bigbatch(spec, idx, ctx)
         else:
             _run_sirt(spec, idx, ctx)
 
